@@ -34,6 +34,7 @@ type Schema struct {
 	Known        string // id of the known finding this schema isolates ("" = none)
 	Tier         string // "quick" or "thorough"
 	ExtraDeps    []*descriptorpb.FileDescriptorProto // non-generated, non-wellknown deps (e.g. cosmos.proto)
+	PerFile      bool // one plugin invocation per file to generate (the way protoc is usually driven), outputs merged
 }
 
 // Result of running the plugin on a schema.
@@ -153,6 +154,42 @@ func Request(s *Schema) (*pluginpb.CodeGeneratorRequest, error) {
 
 // Run executes the plugin (the repo's build tool) on one schema.
 func (w *Workspace) Run(s *Schema) *Result {
+	if s.PerFile {
+		res := &Result{Schema: s, Files: map[string]string{}}
+		gen := s.Generate
+		if gen == nil {
+			for _, f := range s.Files {
+				gen = append(gen, f.GetName())
+			}
+		}
+		// reverse dependency order, so that nothing depends on what an earlier invocation happened to produce
+		for i := len(gen) - 1; i >= 0; i-- {
+			one := *s
+			one.PerFile = false
+			one.Generate = []string{gen[i]}
+			r := w.Run(&one)
+			if r.RunErr != nil {
+				res.RunErr = fmt.Errorf("invocation for %s: %v", gen[i], r.RunErr)
+				return res
+			}
+			if r.Response.Error != nil {
+				res.Response = r.Response
+				return res
+			}
+			if res.Response == nil {
+				res.Response = &pluginpb.CodeGeneratorResponse{SupportedFeatures: r.Response.SupportedFeatures}
+			}
+			res.Response.File = append(res.Response.File, r.Response.File...)
+			for n, c := range r.Files {
+				if _, dup := res.Files[n]; dup {
+					res.RunErr = fmt.Errorf("file %s produced by two invocations", n)
+					return res
+				}
+				res.Files[n] = c
+			}
+		}
+		return res
+	}
 	res := &Result{Schema: s, Files: map[string]string{}}
 	req, err := Request(s)
 	if err != nil {
